@@ -343,6 +343,7 @@ RESTRICTIONS = [
 
 def check_restrict(cx, chk):
     cg = cx.codegen
+    _CX[0] = cx
     sites = err_sites(cx)
     facts = {}
     for (p, b, bb, at, e) in sites:
@@ -385,6 +386,8 @@ def flag_reads_at(cx, b, block_pred):
 
 def check_cached(cx, chk):
     cg = cx.codegen
+    _CX[0] = cx
+    _PRED_FLAGS.clear()
     sites = {}
     # (1) cache field declaration: pushes of `CacheEntries` in CodegenGrammar::generate_code
     for p, b in c16.generator_bodies(cx):
@@ -438,6 +441,27 @@ def flags_guarding_ip(cx, cg, p, b, bb):
     r = flags_guarding(b, bb)
     if r:
         return r
+    if "::{closure" in p:
+        # the closure of a `.map(..)` / `.for_each(..)` behind a `.filter(..)` / `.filter_map(..)` of the same function: the elements it
+        # sees are the ones the filtering closure lets through
+        parent = p.rsplit("::{closure", 1)[0]
+        pb = cx.body(cg, parent) if parent in cg.fns and "mir" in cg.fns[parent] else None
+        if pb is not None and any(not t["func"].get("indirect") and last(t["func"]["path"]) in ("filter", "filter_map") for _, t in pb.calls()):
+            acc = set()
+            for q, f in cg.fns.items():
+                if q == p or not q.startswith(parent + "::{closure") or "mir" not in f or q.count("::{closure") != p.count("::{closure"):
+                    continue
+                qb = cx.body(cg, q)
+                for i in sorted(qb.reach):
+                    for st in qb.blocks[i]["stmts"]:
+                        if st["k"] == "assign" and st["place"]["l"] == 0:
+                            rv = st["rv"]
+                            passes = (rv["k"] == "agg" and rv.get("variant") == "Some") or \
+                                (rv["k"] == "use" and rv["op"].get("k") == "const" and str(rv["op"].get("val", rv["op"].get("text", ""))).strip() in ("true", "const true"))
+                            if passes:
+                                acc |= flags_guarding(qb, i)
+            if acc:
+                return acc
     sets = []
     for q, f in cg.fns.items():
         if "mir" not in f or "::grammar::generated::" in q:
@@ -455,6 +479,44 @@ def flags_guarding_ip(cx, cg, p, b, bb):
     return out
 
 
+_PRED_FLAGS = {}
+_CX = [None]
+
+
+def predicate_flags(path):
+    """For a crate-local predicate `fn(&RuleFlags..) -> bool`: the caching flags that make it true on their own (evaluated on its
+    semantic summary), so that `flags.uses_cache()` guards like `flags.memoize || flags.left_recursive`."""
+    cx = _CX[0]
+    if cx is None:
+        return set()
+    if path in _PRED_FLAGS:
+        return _PRED_FLAGS[path]
+    out = set()
+    cg = cx.codegen
+    f = cg.fns.get(path)
+    if f is not None and "mir" in f and f.get("output") == "bool":
+        from .. import sem
+        from . import semspec
+        try:
+            sm = sem.Sem(cx, cg, inline=lambda p_: False).summarize(path)
+        except sem.SemLimit:
+            sm = None
+        if sm is not None and sm.complete:
+            P1 = mir.mk("param", 1)
+            names = ("memoize", "left_recursive")
+            for nme in names:
+                env = {}
+                for other in names:
+                    for base in (P1, mir.mk("deref", P1)):
+                        env[mir.mk("field", base, other)] = (other == nme)
+                sel, unk = semspec.select_leaves(sm.returns, env)
+                vals = {semspec.eval_term(l.ret, env) for l in sel}
+                if not unk and vals == {True}:
+                    out.add(nme)
+    _PRED_FLAGS[path] = out
+    return out
+
+
 def flags_guarding(b, bb):
     """Flags (memoize / left_recursive) whose truth lets control reach bb: scan every switch from which bb is reachable."""
     out = set()
@@ -466,6 +528,9 @@ def flags_guarding(b, bb):
         ne = norm(e)
         direct = {s[2] for s in walk(ne) if s[0] == "field" and s[2] in ("memoize", "left_recursive")}
         deep = {s[2] for s in b.walk_deep(ne) if s[0] == "field" and s[2] in ("memoize", "left_recursive")}
+        for s_ in b.walk_deep(ne):
+            if s_[0] == "call" and not s_[1].startswith(("std::", "core::", "alloc::")):
+                deep |= predicate_flags(s_[3] if len(s_) > 3 and s_[3] else s_[1])
         for name in deep:
             # does the true edge lead to bb?  (for a flag that only feeds a local condition such as
             # `let needs = a || b;` the local's true edge is what matters)
